@@ -551,10 +551,10 @@ func execC19(t *testing.T, w *core.World, p *run.Plan, r *run.Result) {
 		}
 		implAccept := v.ok && v.err == nil
 		if v.ok != (v.err == nil) {
-			w.Violate("C19.result", "C19.result|inconsistent|"+alt, fmt.Sprintf("CheckProof returned ok=%v err=%v", v.ok, v.err))
+			w.Violate("C19.result", "C19.result|inconsistent", fmt.Sprintf("CheckProof returned ok=%v err=%v", v.ok, v.err))
 		}
 		if implAccept && !accept {
-			w.Violate("C19.accept", "C19.accept-wrong|"+alt+"|"+strings.TrimSpace(reason), fmt.Sprintf("accepted a proof the reference rejects (%s; executor mode %d key=%d; server %d at +%v)", reason, ex.mode, p.Get("exec_key", 0), v.srv, v.at))
+			w.Violate("C19.accept", "C19.accept-wrong|"+strings.TrimSpace(reason), fmt.Sprintf("%s: accepted a proof the reference rejects (%s; executor mode %d key=%d; server %d at +%v)", alt, reason, ex.mode, p.Get("exec_key", 0), v.srv, v.at))
 		}
 		if !implAccept && accept && alter == 9 && !ex.answers() {
 			// a flipped bit of the state-init container can change parts of a cell the harness' level-0
@@ -562,10 +562,10 @@ func execC19(t *testing.T, w *core.World, p *run.Plan, r *run.Result) {
 			// the container no longer hashes to the address. Only the accepting direction is judged here.
 			w.Probe("flipped-state-init-reject-not-judged")
 		} else if !implAccept && accept {
-			w.Violate("C19.reject", "C19.reject-wrong|"+alt, fmt.Sprintf("rejected a proof the reference accepts: err=%v (executor mode %d; server %d at +%v)", v.err, ex.mode, v.srv, v.at))
+			w.Violate("C19.reject", "C19.reject-wrong", fmt.Sprintf(alt+": rejected a proof the reference accepts: err=%v (executor mode %d; server %d at +%v)", v.err, ex.mode, v.srv, v.at))
 		}
 		if implAccept && accept && string(v.key) != string(K) {
-			w.Violate("C19.key", "C19.key-wrong|"+alt, fmt.Sprintf("returned key %x, controlling key is %x", v.key, K))
+			w.Violate("C19.key", "C19.key-wrong", fmt.Sprintf("returned key %x, controlling key is %x", v.key, K))
 		}
 		if accept {
 			w.Probe("accepted")
